@@ -281,26 +281,58 @@ theorem pct_from_spec (p : Pct) (a : Amount) (hf : p.factor.value ≠ 0)
     rw [h.1]; simp
   simp only [hx, h.2]
 
-/-- `PercentageFromAmount` keeps the digits and adds two decimals -/
-theorem pct_ofAmount_spec (a : Amount) (hv : small (a.value * 100)) :
-    (Pct.ofAmount a).amount = ⟨a.value, a.exp + 2⟩ := by
-  unfold Pct.ofAmount
-  have hr : a.rescale (a.exp + 2) = ⟨a.value * 100, a.exp + 2⟩ := by
-    unfold Amount.rescale
-    have h1 : ¬ a.exp > a.exp + 2 := by omega
-    have h2 : a.exp < a.exp + 2 := by omega
-    simp only [h1, h2, if_true, if_false]
-    congr 1
-    have : a.exp + 2 - a.exp = 2 := by omega
-    rw [this]; rfl
-  rw [hr, divide_exact _ factor100 (by decide) (by simpa [factor100, pow10, small_iff] using hv) (by decide)]
-  unfold Amount.divX factor100
-  simp only [pow10, pow_zero, mul_one]
-  have hpos : (0:ℤ) < 100 := by decide
-  simp only [hpos, if_true]
-  congr 1
-  unfold rha
-  split <;> omega
+/-- `PercentageFromAmount` keeps the digits and adds two decimals, for every
+    amount: since the fix "PercentageFromAmount keeps the digits instead of
+    multiplying and dividing by 100" there is no float and no multiplication on
+    the way, so the former hypothesis `small (a.value * 100)` is gone. -/
+theorem pct_ofAmount_spec (a : Amount) :
+    (Pct.ofAmount a).amount = ⟨a.value, a.exp + 2⟩ := rfl
+
+/-- … and that is exactly a hundredth of the amount. -/
+theorem pct_ofAmount_value (a : Amount) : (Pct.ofAmount a).amount.toRat = a.toRat / 100 := by
+  rw [pct_ofAmount_spec]
+  unfold Amount.toRat pow10
+  simp only
+  push_cast
+  rw [pow_add]
+  have h10 : ((10 : ℚ)) ^ a.exp ≠ 0 := by positivity
+  field_simp
+  norm_num
+
+/-- `Percentage.Amount` is a hundred times the value, exactly, with two decimals
+    fewer (none below two): integer arithmetic only (`RescaleUp(2)`). -/
+theorem pct_amount_spec (p : Pct) :
+    p.toAmount = ⟨p.amount.value * 10 ^ (2 - p.amount.exp), p.amount.exp - 2⟩ ∧
+    p.toAmount.toRat = p.amount.toRat * 100 := by
+  obtain ⟨⟨v, e⟩⟩ := p
+  have h : Pct.toAmount ⟨⟨v, e⟩⟩ = ⟨v * 10 ^ (2 - e), e - 2⟩ := by
+    unfold Pct.toAmount Amount.rescaleUp Amount.rescale
+    by_cases h2 : 2 > e
+    · have h3 : ¬ e > 2 := by omega
+      have h4 : e < 2 := by omega
+      have h5 : 2 - 2 = e - 2 := by omega
+      simp only [h2, h3, h4, if_true, if_false, pow10, h5]
+    · have h5 : 2 - e = 0 := by omega
+      simp only [h2, if_false, h5, pow_zero, mul_one]
+  refine ⟨h, ?_⟩
+  rw [h]
+  unfold Amount.toRat pow10
+  simp only
+  by_cases h2 : 2 ≤ e
+  · obtain ⟨k, rfl⟩ : ∃ k, e = k + 2 := ⟨e - 2, by omega⟩
+    have e1 : 2 - (k + 2) = 0 := by omega
+    rw [e1]
+    simp only [pow_zero, mul_one, Nat.add_sub_cancel]
+    push_cast
+    rw [pow_add]
+    have h10 : ((10 : ℚ)) ^ k ≠ 0 := by positivity
+    field_simp
+    norm_num
+  · have : e = 0 ∨ e = 1 := by omega
+    rcases this with rfl | rfl
+    · norm_num
+    · norm_num
+      ring
 
 /-! ## thresholds -/
 
@@ -353,9 +385,13 @@ theorem rescale_rounds_with_math_Round : math_Amount_Rescale = ["Round"] := by d
 theorem fromFloat_rounds_with_math_Round : math_AmountFromFloat64 = ["Round"] := by decide
 theorem add_rescales_argument : calls_Amount_Add = ["Rescale"] := by decide
 theorem subtract_rescales_argument : calls_Amount_Subtract = ["Rescale"] := by decide
-theorem factor_constants : GoblVerif.Generated.Num.factor1 = (1, 0) ∧ GoblVerif.Generated.Num.factor100 = (100, 0) := by decide
-theorem model_constants : (GoblVerif.factor1.value, GoblVerif.factor1.exp) = GoblVerif.Generated.Num.factor1 ∧
-    (GoblVerif.factor100.value, GoblVerif.factor100.exp) = GoblVerif.Generated.Num.factor100 := by decide
+theorem factor_constants : GoblVerif.Generated.Num.factor1 = (1, 0) := by decide
+theorem model_constants : (GoblVerif.factor1.value, GoblVerif.factor1.exp) = GoblVerif.Generated.Num.factor1 := by decide
+/-- the two conversions between amounts and percentages only move the decimal
+    point: no `Multiply` / `Divide` / `Rescale` through float64 (the model's
+    `Pct.ofAmount` / `Pct.toAmount` are written for exactly these bodies) -/
+theorem percentage_conversions_shift_the_point :
+    calls_PercentageFromAmount = [] ∧ calls_Percentage_Amount = ["RescaleUp"] := by decide
 
 end Expect
 
